@@ -11,7 +11,7 @@ From Coq Require Import ZifyBool.
 Open Scope Z_scope.
 
 (* ------------------------------------------------------------------ well-formed calls: every argument is an i32,
-   sizes of element types and slice lengths are in [0, 2^31) *)
+   sizes of element types are in [0, 2^31), slice lengths too unless the accessor converts them with a checked conversion *)
 Fixpoint wf_call (c : call) : Prop :=
   match c with
   | CNop | CAsSlice => True
@@ -20,13 +20,15 @@ Fixpoint wf_call (c : call) : Prop :=
   | CPut sz pos | CPutOrdered sz pos | CCas sz pos _ _ => size32 sz /\ i32 pos
   | CPutAtomic off _ | CAddOrdered off _ | CGetAndAdd off _ | CGetString off | CGetStringLength off => i32 off
   | CSetMemory a b _ | CSubSlice a b | CGetStringWl a b => i32 a /\ i32 b
-  | CPutBytes off n | CPutString off n | CPutStringWl off n => i32 off /\ size32 n
-  | CWrite n => size32 n
+  | CPutBytes off n => i32 off /\ slice_ok gen_chk_put_bytes n
+  | CPutString off n => i32 off /\ slice_ok gen_chk_put_string n
+  | CPutStringWl off n => i32 off /\ slice_ok gen_chk_put_string_wl n
+  | CWrite n => slice_ok gen_chk_put_bytes n
   | CCopyFrom off soff len => i32 off /\ i32 soff /\ i32 len
   | FNew sz fb => size32 sz /\ i32 fb
   | FStringGet _ off | FStringGetLength _ off => i32 off
-  | FStringPut _ off n => i32 off /\ size32 n
-  | FPutBytes fb off n => i32 fb /\ i32 off /\ size32 n
+  | FStringPut _ off n => i32 off /\ slice_ok gen_chk_put_string n
+  | FPutBytes fb off n => i32 fb /\ i32 off /\ slice_ok gen_chk_put_bytes n
   | FGetBytes sz fb off | FPut sz fb off | FOverlay sz fb off => size32 sz /\ i32 fb /\ i32 off
   | FField sz fb foff flen => size32 sz /\ i32 fb /\ 0 <= foff /\ 0 <= flen /\ foff + flen <= sz
   end.
@@ -340,15 +342,23 @@ Proof.
   unfold i32, in_i32, two31 in *. lia.
 Qed.
 
-(* the hypothesis "slice shorter than 2^31" of wf_call is needed: the `as Index` cast of a longer slice length
-   truncates, the check sees 4 and 2^32 + 4 bytes are copied *)
-Lemma long_slice_escapes m :
+(* why wf_call restricts slices to less than 2^31 bytes while an accessor converts the length with `as Index`:
+   the cast truncates, the check sees 4, and 2^32 + 4 bytes are copied.  With the checked conversion the same call
+   is a panic that touches nothing. *)
+Ltac by_form m H := destruct m; revert H; vm_compute; intro H; first [discriminate H | reflexivity].
+
+Lemma long_slice_escapes m : gen_chk_put_bytes = false ->
   touched m 16 8 0 0 (CPutBytes 0 (two32 + 4)) = [(0, 0, two32 + 4)] /\
   fst (fst (observe m 16 8 0 0 (CPutBytes 0 (two32 + 4)))) = Crash /\
   ~ log_inside 16 8 (touched m 16 8 0 0 (CPutBytes 0 (two32 + 4))).
 Proof.
-  assert (T : touched m 16 8 0 0 (CPutBytes 0 (two32 + 4)) = [(0, 0, two32 + 4)])
-    by (destruct m; vm_compute; reflexivity).
-  split; [exact T | split; [destruct m; vm_compute; reflexivity | ]].
+  intros Hf.
+  assert (T : touched m 16 8 0 0 (CPutBytes 0 (two32 + 4)) = [(0, 0, two32 + 4)]) by by_form m Hf.
+  split; [exact T | split; [by_form m Hf | ]].
   rewrite T. intros H. inversion H as [ | ? ? Hr _]. vm_compute in Hr. discriminate.
 Qed.
+
+Lemma long_slice_rejected m : gen_chk_put_bytes = true ->
+  observe m 16 8 (-1000000) 0 (CPutBytes 0 (two32 + 4)) = (Panic, [], []) /\
+  touched m 16 8 (-1000000) 0 (CPutBytes 0 (two32 + 4)) = [].
+Proof. intros Hf. split; by_form m Hf. Qed.
